@@ -520,7 +520,9 @@ def mon_c10(tr):
     its own clock before deadline + 300 s."""
     out = []
     leader = True
-    keysig = lambda s: {k: ([(h["req"], h["depth"]) for h in live_holders(v)], [w["req"] for w in live_waiters(v)], v["locked"], v["data"].split("/")[0]) for k, v in s["keys"].items()}
+    # an unreferenced, empty manager (just created by a parked request) may be reclaimed by a refusal: not a state change
+    keysig = lambda s: {k: ([(h["req"], h["depth"]) for h in live_holders(v)], [w["req"] for w in live_waiters(v)], v["locked"], v["data"].split("/")[0])
+                        for k, v in s["keys"].items() if live_holders(v) or live_waiters(v) or v["locked"] or v["data"] != "nil"}
     for i, st in enumerate(tr.steps):
         f = st["line"].split()
         if f[0] == "role":
